@@ -383,6 +383,18 @@ fn digest_from_bytes<T: Corpus + Encode + Decode>(name: &str) {
 	println!("from_bytes:{}\t{:016x}", name, h.0);
 }
 
+/// After a rejected decode: what the next decodes from the same cursor say.
+fn follow_up(h: &mut Fnv, s: &mut &[u8]) {
+	match u8::decode(s) {
+		Ok(b) => {
+			h.byte(1);
+			h.byte(b);
+		},
+		Err(_) => h.byte(0),
+	}
+	h.byte(<Option<u16>>::decode(s).is_ok() as u8);
+}
+
 /// A configuration in which some decode panics must still produce a comparable line for that type.
 fn digest<T: Corpus + Encode + Decode>(name: &str) {
 	if std::panic::catch_unwind(|| digest_inner::<T>(name)).is_err() {
@@ -430,14 +442,24 @@ fn digest_inner<T: Corpus + Encode + Decode>(name: &str) {
 						h.byte((m.len() - s.len()) as u8);
 						h.bytes(&d.encode());
 					},
-					Err(_) => h.byte(0),
+					Err(_) => {
+						h.byte(0);
+						// a history: the same cursor is used again after the rejection (what a caller that
+						// falls back to another type does); the follow-up decision is part of the behaviour
+						follow_up(&mut h, &mut s);
+					},
 				}
 			}
 			m[i] = e[i];
 		}
 		// and every truncation
 		for cut in 0..e.len() {
-			h.byte(T::decode(&mut &e[..cut]).is_ok() as u8);
+			let mut s = &e[..cut];
+			let ok = T::decode(&mut s).is_ok();
+			h.byte(ok as u8);
+			if !ok {
+				follow_up(&mut h, &mut s);
+			}
 		}
 	}
 	let mut buf = [0u8; 2];
